@@ -129,3 +129,62 @@ def Prog.getInt (e : Env) (p : Prog) (i : Int) : Except Err (Int × List Ev) :=
       | none => .error .index
 
 end MenpoModel.LazyList
+
+namespace MenpoModel.LazyList
+open MenpoModel.PyData
+
+/-! ### heap level: Python lists are mutable objects; every lazy-list operation allocates a new list
+
+A heap is a list of cells (address = position), each holding the `_callables` list of one `LazyList`.
+`hstep` executes one operation whose operands are *addresses*; the result is a fresh cell appended at the
+end.  Nothing is ever written into an existing cell — that is the coded behaviour (`map`, `repeat` work on
+`self.copy()`, `__getitem__` and `__add__` build a new `LazyList`), and it is what "the lists an operation
+was applied to behave afterwards exactly as before" means for aliased Python objects. -/
+
+abbrev Heap := List (List LThunk)
+
+inductive HOp where
+  | base (b n : Nat)
+  | map (f : Nat) (a : Nat)
+  | mapEach (fs : List Nat) (a : Nat)
+  | select (s : Sel) (a : Nat)
+  | rep (n : Nat) (a : Nat)
+  | add (a b : Nat)
+  | addPlain (a : Nat) (vs : List Int)
+  | copy (a : Nat)
+deriving Repr
+
+/-- the value an operation computes from its operand lists (shared with `Prog.lazy`) -/
+def opValue (h : Heap) : HOp → Except Err (List LThunk)
+  | .base b n => .ok ((List.range n).map (.base b))
+  | .map f a => match h[a]? with
+    | some ts => .ok (ts.map (.app f))
+    | none => .error .index
+  | .mapEach fs a => match h[a]? with
+    | some ts => if fs.length = ts.length then .ok (List.zipWith .app fs ts) else .error .value
+    | none => .error .index
+  | .select s a => match h[a]? with
+    | some ts => mapE (gather ts) (s.resolve ts.length)
+    | none => .error .index
+  | .rep n a => match h[a]? with
+    | some ts => .ok (ts.flatMap (List.replicate n))
+    | none => .error .index
+  | .add a b => match h[a]?, h[b]? with
+    | some x, some y => .ok (x ++ y)
+    | _, _ => .error .index
+  | .addPlain a vs => match h[a]? with
+    | some ts => .ok (ts ++ vs.map .const)
+    | none => .error .index
+  | .copy a => match h[a]? with
+    | some ts => .ok ts
+    | none => .error .index
+
+/-- one operation: on success the result is stored in a new cell; a refused operation changes nothing -/
+def hstep (h : Heap) (op : HOp) : Heap :=
+  match opValue h op with
+  | .ok ts => h ++ [ts]
+  | .error _ => h
+
+def hrun (h : Heap) (ops : List HOp) : Heap := ops.foldl hstep h
+
+end MenpoModel.LazyList
